@@ -93,6 +93,18 @@ let cmd_wrap = function
   | L l -> sx_of_list sx_of_q (c01_wrap_all (List.map q_of_sx l))
   | _ -> failwith "wrap: list of (num den)"
 
+let rd_of_sx x = match int_of_sx x with
+  | 0 -> RdNodeLon | 1 -> RdNodeLat | 2 -> RdFaceAreas | 3 -> RdFaceJacobian | _ -> RdOther
+let qlist_of_sx = list_of_sx q_of_sx
+let sx_of_qopt = function None -> A "N" | Some l -> sx_of_list sx_of_q l
+
+let cmd_lazy = function
+  | L [derived; computed; lon0; areas0; reads] ->
+      let s0 = { lz_lon = opt_of_sx qlist_of_sx lon0; lz_areas = opt_of_sx qlist_of_sx areas0 } in
+      let s = c01_rd_run (qlist_of_sx derived) (qlist_of_sx computed) s0 (list_of_sx rd_of_sx reads) in
+      L [ sx_of_qopt s.lz_lon; sx_of_qopt s.lz_areas ]
+  | _ -> failwith "lazy: (derived computed lon0 areas0 reads)"
+
 let cmd_sniff = function
   | L [a; b; c; d; e; f; g; h] ->
       sx_of_z (c01_sniff { k_coord = bool_of_sx a; k_coordx = bool_of_sx b; k_grid_center_lon = bool_of_sx c;
@@ -104,5 +116,5 @@ let commands : (string * (sx -> sx)) list = [
   "ugrid", cmd_ugrid; "topo", cmd_topo; "mpas_padded", cmd_mpas_padded; "mpas_plain", cmd_mpas_plain;
   "scrip", cmd_scrip; "exodus", cmd_exodus; "exodus_coords", cmd_exodus_coords; "esmf", cmd_esmf; "fv", cmd_fv;
   "geos", cmd_geos; "icon", cmd_icon; "icon_encode", cmd_icon_encode; "geo", cmd_geo; "wrap", cmd_wrap;
-  "sniff", cmd_sniff;
+  "sniff", cmd_sniff; "lazy", cmd_lazy;
 ]
